@@ -76,6 +76,7 @@ def run_main(argv, stdin_text=None):
     saved_level = root.level
     saved_disable = logging.root.manager.disable
     sys.stdout, sys.stderr = out, err
+    logging.disable(logging.NOTSET)      # the runner silences logging globally; a real process does not
     if stdin_text is not None:
         sys.stdin = io.TextIOWrapper(io.BytesIO(stdin_text.encode('utf-8')))
     try:
